@@ -104,7 +104,9 @@ pub fn run(id: &str, o: &Oracle, tier: &str, seed: u64, w: &mut dyn Write) -> Op
                     rand_cards(o, &mut rng, n)
                 } else {
                     let start = rng.below(52) as usize;
-                    let mut d: Vec<usize> = (0..20).map(|j| (start + j * if k % 4 == 2 { 1 } else { 13 }) % 52).collect();
+                    // k%4==2: twenty consecutive deck cards (long same-suit runs);
+                    // k%4==3: five neighbouring ranks in all four suits (pairs, trips, quads, straights)
+                    let mut d: Vec<usize> = (0..20).map(|j| if k % 4 == 2 { (start + j) % 52 } else { (start + j % 5) % 13 + 13 * (j / 5) }).collect();
                     d.sort_unstable();
                     d.dedup();
                     rng.shuffle(&mut d);
